@@ -34,15 +34,20 @@ TRUSTED_BASE = [
 
 
 def verify_one(args):
-    fid, repo_root, tier = args
+    fid, repo_root, tier = args[:3]
+    attempt = args[3] if len(args) > 3 else 0
     try:
+        if attempt:
+            import z3
+            z3.set_param('smt.random_seed', 11 * attempt)
+            z3.set_param('sat.random_seed', 11 * attempt)
         from pyvc.extract import Repo
         from pyvc.verify import Engine
         from pyvc.run import load_specs
         from specs.schema import SCHEMA
         specs = load_specs()
         spec = specs[fid]
-        eng = Engine(Repo(repo_root), SCHEMA, specs, timeout_ms=20000 if tier == 'quick' else 60000,
+        eng = Engine(Repo(repo_root), SCHEMA, specs, timeout_ms=(20000 if tier == 'quick' else 60000) * (2 if attempt else 1),
                      both=(tier == 'thorough'))
         if fid.startswith('lemma::'):
             from pyvc.lemma import run_lemma
@@ -79,6 +84,21 @@ def run_proofs(fids, tier):
                 out.append(dict(fid=f, status='checker-crash', error=f"worker failed: {type(e).__name__}: {e}", obligations=[],
                                 sat_checks=[], assumptions=[], used_contracts=[], paths=0, wall_s=0, fn_hash=None,
                                 ghost_sites=[], ghost_declared=[], serves=[], note=''))
+    # an `unknown` (never a `refuted`) obligation gets one more chance in a fresh process with another solver seed and twice the budget:
+    # verdicts must not flip to UNDECIDED just because the machine was busy
+    retry = [i for i, r in enumerate(out) if r['status'] == 'ok' and any(o['status'] == 'unknown' for o in r['obligations'])
+             and not any(o['status'] == 'refuted' for o in r['obligations'])]
+    if retry:
+        with ProcessPoolExecutor(max_workers=min(len(retry), 6), mp_context=ctx, max_tasks_per_child=1) as ex:
+            futs = [(i, ex.submit(verify_one, (out[i]['fid'], REPO, tier, 1))) for i in retry]
+            for i, fu in futs:
+                try:
+                    r2 = fu.result(timeout=1800 if tier == 'quick' else 5400)
+                    if r2['status'] == 'ok' and all(o['status'] == 'discharged' for o in r2['obligations']):
+                        r2['retried'] = True
+                        out[i] = r2
+                except Exception:
+                    pass
     return out
 
 
